@@ -1,55 +1,244 @@
 package main
 
 import (
+	"bytes"
+	"context"
 	"fmt"
-	"os"
 	"strings"
+	"sync"
+	"time"
 
+	"github.com/plgd-dev/go-coap/v3/message"
+	"github.com/plgd-dev/go-coap/v3/message/codes"
 	"github.com/plgd-dev/go-coap/v3/message/pool"
+	"github.com/plgd-dev/go-coap/v3/net/responsewriter"
+	"github.com/plgd-dev/go-coap/v3/udp/client"
 )
 
 func init() { props["C12"] = runC12 }
 
+// c12Concurrent: one connection in both roles under real concurrency: k callers issue
+// confirmable requests that a responder goroutine answers (piggybacked or ACK + separate
+// response, sometimes after a retransmission), peers' requests are injected concurrently
+// and handled by a handler that holds the request for a while, and a housekeeping
+// goroutine ticks with times in the future so retransmissions and expiries happen.
+func c12Concurrent(rng *Rng, tr *poolTracker, callers, perCaller, peerReqs int) (ok bool) {
+	mc := newMemConn(memConnOpts{getMID: 0x3000, queueSize: 16, maxRetransmit: 2, ackTimeout: 50 * time.Millisecond, nstart: 4, limitTotal: 64, limitEndpoint: 64})
+	defer mc.close()
+	mc.mu.Lock()
+	mc.behave = func(w *responsewriter.ResponseWriter[*client.Conn], r *pool.Message) {
+		tr.Hold(r)
+		defer tr.Unhold(r)
+		if r.Code() == codes.GET || r.Code() == codes.POST {
+			_ = w.SetResponse(codes.Content, message.TextPlain, bytes.NewReader([]byte("pong")))
+		}
+	}
+	mc.mu.Unlock()
+	stop := make(chan struct{})
+	var wg sync.WaitGroup
+	// responder: answers every confirmable request the connection writes
+	wg.Add(1)
+	go func() {
+		defer wg.Done()
+		r2 := rng.Fork()
+		seen := map[int]int{}
+		pmid := 20000
+		for {
+			select {
+			case <-stop:
+				return
+			default:
+			}
+			for _, w := range mc.takeOut() {
+				if w.Bad || w.Typ != 0 || w.Code == 0 || w.Code > 4 {
+					continue
+				}
+				seen[w.MID]++
+				switch r2.Intn(4) {
+				case 0: // piggybacked
+					mc.inject(encodeWire(2, 69, w.MID, w.Tok, nil, []byte("resp")))
+				case 1: // ack, then separate confirmable response
+					mc.inject(encodeWire(2, 0, w.MID, nil, nil, nil))
+					pmid++
+					mc.inject(encodeWire(0, 69, pmid, w.Tok, nil, []byte("sep")))
+				case 2: // drop the first copy, answer the retransmission
+					if seen[w.MID] > 1 {
+						mc.inject(encodeWire(2, 69, w.MID, w.Tok, nil, []byte("late")))
+					}
+				default: // duplicate answer
+					mc.inject(encodeWire(2, 69, w.MID, w.Tok, nil, []byte("dup")))
+					mc.inject(encodeWire(2, 69, w.MID, w.Tok, nil, []byte("dup")))
+				}
+			}
+			time.Sleep(200 * time.Microsecond)
+		}
+	}()
+	// housekeeping
+	wg.Add(1)
+	go func() {
+		defer wg.Done()
+		i := 0
+		for {
+			select {
+			case <-stop:
+				return
+			default:
+			}
+			i++
+			mc.cc.CheckExpirations(time.Now().Add(time.Duration(i%4) * 60 * time.Millisecond))
+			time.Sleep(500 * time.Microsecond)
+		}
+	}()
+	// peer requests
+	wg.Add(1)
+	go func() {
+		defer wg.Done()
+		for i := 0; i < peerReqs; i++ {
+			typ := i % 2
+			d := encodeWire(typ, 1, 30000+i/2, []byte{0xEE, byte(i)}, nil, nil) // every second one is a duplicate ID
+			mc.inject(d)
+		}
+	}()
+	// callers
+	var cwg sync.WaitGroup
+	okAll := true
+	var okMu sync.Mutex
+	for c := 0; c < callers; c++ {
+		cwg.Add(1)
+		go func(c int) {
+			defer cwg.Done()
+			for i := 0; i < perCaller; i++ {
+				ctx, cancel := context.WithTimeout(context.Background(), 3*time.Second)
+				req := mc.cc.AcquireMessage(ctx)
+				req.SetCode(codes.GET)
+				req.SetToken([]byte{byte(c), byte(i), 0x5A})
+				req.SetType(message.Confirmable)
+				_ = req.SetPath(fmt.Sprintf("/c%d", c))
+				resp, err := mc.cc.Do(req)
+				if err == nil {
+					tr.Hold(resp)
+					if b, _ := resp.ReadBody(); len(b) == 0 {
+						okMu.Lock()
+						okAll = false
+						okMu.Unlock()
+					}
+					tr.Unhold(resp)
+					tr.AppRel(resp)
+					mc.cc.ReleaseMessage(resp)
+				}
+				tr.AppRel(req)
+				mc.cc.ReleaseMessage(req)
+				cancel()
+			}
+		}(c)
+	}
+	cwg.Wait()
+	close(stop)
+	wg.Wait()
+	mc.sync()
+	return okAll
+}
+
 func runC12(a runArgs) error {
 	e := NewEmitter("C12", "Pool.Run")
 	e.Preamble = "From GoCoap Require Import Pool.Model Pool.Spec."
-	e.ShardSize = 100
+	e.ShardSize = 60
+	e.Rule = "complete pool lifecycle traces (release / recycle / re-acquire reported by the verif hook in message/pool, plus hold / unhold / application-release events of the harness) of three scenario families on a real udp/client.Conn over an in-memory session: (A) server-role request histories with duplicates, ageing and ticks (generator of C05); (B) client-role Do histories with retransmission ticks, ACK/RST/piggybacked/separate responses and cancellations (generator of C06); (C) concurrent callers + responder + peer requests + housekeeping ticks. Distinct = distinct trace; non-trivial = the trace contains at least one re-acquisition of a recycled message and one application hold."
 	rng := NewRng(a.seed)
-	_ = rng
 	tr := newPoolTracker()
 	pool.VerifSetTracker(tr)
 	activeTracker = tr
 	defer func() { activeTracker = nil; pool.VerifSetTracker(nil) }()
-	dbg := os.Getenv("HXDBG") != ""
-	// family A: server role
-	evs := []c05Ev{}
-	tok := []byte{1, 2}
-	r := c05Ev{Kind: "req", Typ: 0, MID: 10, Tok: tok, Code: 1, Beh: "resp", RCode: 69, PLen: 4, PSalt: 1}
-	n := c05Ev{Kind: "req", Typ: 1, MID: 11, Tok: tok, Code: 1, Beh: "resp", RCode: 69, PLen: 4, PSalt: 1}
-	nn := c05Ev{Kind: "req", Typ: 1, MID: 12, Tok: tok, Code: 1, Beh: "none"}
-	cn := c05Ev{Kind: "req", Typ: 0, MID: 13, Tok: tok, Code: 1, Beh: "none"}
-	evs = append(evs, r, r, n, n, nn, cn, c05Ev{Kind: "tick"})
-	perEventC05 = func(i int, ev c05Ev) {
-		if dbg {
-			fmt.Fprintf(os.Stderr, "A %s -> %s\n", ev.desc(), coqLc(tr.take()))
+
+	emitTrace := func(desc string, fam string) {
+		evs := tr.take()
+		re, ho := false, false
+		for _, x := range evs {
+			if x.Kind == "Reacq" {
+				re = true
+			}
+			if x.Kind == "Hold" {
+				ho = true
+			}
+		}
+		w := 1 + len(evs)/60
+		e.AddW(fmt.Sprintf("Trace 64 %s", coqLc(evs)), desc, re && ho, w, fam, fmt.Sprintf("events<%d", (len(evs)/100+1)*100))
+		// fresh numbering per scenario keeps the object ids small
+		tr.mu.Lock()
+		tr.ids = map[*pool.Message]int{}
+		tr.holds = map[*pool.Message]uint64{}
+		tr.mu.Unlock()
+	}
+
+	if a.only != "" {
+		f := strings.SplitN(a.only, "#", 2)
+		switch f[0] {
+		case "A":
+			parts := strings.SplitN(f[1], "|", 2)
+			var getMID int32
+			fmt.Sscanf(parts[0], "%d", &getMID)
+			var evs []c05Ev
+			for _, s := range strings.Fields(parts[1]) {
+				evs = append(evs, parseC05Ev(s))
+			}
+			tr.take()
+			runC05History(evs, getMID)
+			emitTrace(a.only, "A")
+		case "B":
+			parts := strings.SplitN(f[1], "|", 2)
+			var ack, maxrt, nst int
+			fmt.Sscanf(parts[0], "%d,%d,%d", &ack, &maxrt, &nst)
+			var evs []c06Ev
+			for _, s := range strings.Fields(parts[1]) {
+				evs = append(evs, parseC06Ev(s))
+			}
+			tr.take()
+			runC06History(evs, ack, maxrt, nst)
+			emitTrace(a.only, "B")
+		case "C":
+			var seed uint64
+			var callers, per, peers int
+			fmt.Sscanf(f[1], "%d,%d,%d,%d", &seed, &callers, &per, &peers)
+			tr.take()
+			c12Concurrent(NewRng(seed), tr, callers, per, peers)
+			emitTrace(a.only, "C")
+		}
+		return e.Flush(a.out)
+	}
+
+	nA, nB, nC := 40, 40, 10
+	if a.tier == "thorough" {
+		nA, nB, nC = 400, 400, 120
+	}
+	// family A: reuse the C05 generator by running its emitter into a throw-away Emitter
+	{
+		sub := NewRng(rng.U64())
+		for i := 0; i < nA; i++ {
+			evs, getMID := genC05History(sub, a.tier)
+			tr.take()
+			runC05History(evs, getMID)
+			emitTrace("A#"+c05Desc(evs, getMID), "A")
 		}
 	}
-	tr.take()
-	runC05History(evs, 0x1000)
-	perEventC05 = nil
-	perEventC06 = func(ev c06Ev) {
-		if dbg {
-			fmt.Fprintf(os.Stderr, "B %s -> %s\n", ev.desc(), coqLc(tr.take()))
+	{
+		sub := NewRng(rng.U64())
+		for i := 0; i < nB; i++ {
+			evs, ack, maxrt, nst := genC06History(sub)
+			tr.take()
+			runC06History(evs, ack, maxrt, nst)
+			parts := make([]string, len(evs))
+			for j, ev := range evs {
+				parts[j] = ev.desc()
+			}
+			emitTrace(fmt.Sprintf("B#%d,%d,%d|%s", ack, maxrt, nst, strings.Join(parts, " ")), "B")
 		}
 	}
-	tr.take()
-	runC06History([]c06Ev{{Kind: "send", ID: 1, Tok: []byte{9}}, {Kind: "age", Ms: 2500}, {Kind: "tick"}, {Kind: "ack", ID: 1}, {Kind: "sep", ID: 1, Code: 69, PMID: 500},
-		{Kind: "send", ID: 2, Tok: []byte{8}}, {Kind: "piggy", ID: 2, Code: 69}, {Kind: "send", ID: 3, Tok: []byte{7}}, {Kind: "rst", ID: 3}, {Kind: "cancel", ID: 3},
-		{Kind: "send", ID: 4, Tok: []byte{6}}, {Kind: "age", Ms: 20000}, {Kind: "tick"}, {Kind: "tick"}, {Kind: "cancel", ID: 4}}, 2000, 1, 4)
-	perEventC06 = nil
-	if dbg {
-		fmt.Fprintf(os.Stderr, "END -> %s\n", coqLc(tr.take()))
+	for i := 0; i < nC; i++ {
+		seed := rng.U64() % 1000000
+		callers, per, peers := 2+rng.Intn(3), 3+rng.Intn(3), 6+rng.Intn(8)
+		tr.take()
+		c12Concurrent(NewRng(seed), tr, callers, per, peers)
+		emitTrace(fmt.Sprintf("C#%d,%d,%d,%d", seed, callers, per, peers), "C")
 	}
-	_ = strings.Join
 	return e.Flush(a.out)
 }
